@@ -71,6 +71,8 @@ impl<T> RcDeref for MutArc<T> {
 
   #[inline]
   fn rc_deref(&self) -> Self::Ref<'_> {
+    #[cfg(feature = "verif_hooks")]
+    verif::before_lock(&self.0);
     self.0.lock().unwrap()
   }
 }
@@ -91,6 +93,8 @@ impl<T> RcDerefMut for MutArc<T> {
 
   #[inline]
   fn rc_deref_mut(&self) -> Self::MutRef<'_> {
+    #[cfg(feature = "verif_hooks")]
+    verif::before_lock(&self.0);
     self.0.lock().unwrap()
   }
 }
@@ -106,5 +110,48 @@ impl<T> Clone for MutArc<T> {
   #[inline]
   fn clone(&self) -> Self {
     Self(self.0.clone())
+  }
+}
+
+/// Verification hook (cargo feature `verif_hooks`, off by default): every
+/// acquisition of a `MutArc` cell first reports the cell to a thread-local
+/// callback installed by a test harness, together with a probe that tells
+/// whether the cell is currently locked.  With no callback installed this is a
+/// thread-local read.
+#[cfg(feature = "verif_hooks")]
+pub mod verif {
+  use std::cell::RefCell;
+  use std::collections::HashSet;
+  use std::sync::{Arc, Mutex};
+
+  /// (cell address, probe: is the cell free right now?)
+  pub type Hook = Box<dyn FnMut(usize, fn(usize) -> bool)>;
+
+  thread_local! {
+    pub static BEFORE_LOCK: RefCell<Option<Hook>> = RefCell::new(None);
+    static SEEN: RefCell<HashSet<usize>> = RefCell::new(HashSet::new());
+  }
+
+  fn probe<T>(addr: usize) -> bool {
+    // cells reported to a hook are leaked (below), so the address stays valid
+    let m = unsafe { &*(addr as *const Mutex<T>) };
+    m.try_lock().is_ok()
+  }
+
+  pub fn before_lock<T>(cell: &Arc<Mutex<T>>) {
+    let hook = BEFORE_LOCK.with(|h| h.borrow_mut().take());
+    if let Some(mut f) = hook {
+      let addr = Arc::as_ptr(cell) as usize;
+      if SEEN.with(|s| s.borrow_mut().insert(addr)) {
+        std::mem::forget(cell.clone());
+      }
+      f(addr, probe::<T>);
+      BEFORE_LOCK.with(|h| {
+        let mut h = h.borrow_mut();
+        if h.is_none() {
+          *h = Some(f)
+        }
+      });
+    }
   }
 }
